@@ -32,8 +32,8 @@ impl Monitor for C18 {
     }
     fn cases(&self, tier: Tier) -> u64 {
         match tier {
-            Tier::Quick => 5000,
-            Tier::Thorough => 250_000,
+            Tier::Quick => 20_000,
+            Tier::Thorough => 300_000,
         }
     }
     fn required_counters(&self) -> Vec<&'static str> {
@@ -42,7 +42,7 @@ impl Monitor for C18 {
 
     fn run_case(&self, _index: u64, seed: u64, tier: Tier, rep: &mut CaseReport) {
         let mut rng = Rng::new(seed);
-        if _index % 16 == 15 {
+        if _index % 32 == 31 {
             // exactness against the maximum over ALL schedules of a tiny sporadic system
             let sys = crate::monitors::safety_uni::gen_tiny(&mut rng);
             rep.sample = Some(jobj! {"exhaustive_small_scope" => true, "tasks" => sys.to_json()});
@@ -70,7 +70,19 @@ impl Monitor for C18 {
                 rep.count("bounds_examined", 1);
                 let maxsep = sys.tasks.iter().map(|t| mean_separation(&t.arr)).max().unwrap();
                 let jmax = sys.tasks.iter().map(|t| t.arr.max_jitter()).max().unwrap();
-                let horizon = (3 * r + 2 * maxsep + 10).clamp(40, 1500);
+                // the maximum may be attained late in the busy window: simulate the whole busy window
+                // (its length L is obtained by scanning the total demand, black box)
+                let busy = {
+                    let tb = crate::oracle::uni_eq::Tables::new(&p, limit + 2);
+                    let total = |x: u64| -> u64 { tb.others.iter().map(|t| t[x as usize]).sum::<u64>() + if policy == Policy::FIFO { 0 } else { tb.tua[x as usize] + p.blocking } };
+                    (1..=limit).find(|x| total(*x) <= *x)
+                };
+                let Some(busy) = busy else { continue };
+                if busy > 1400 {
+                    rep.count("skipped_busy_window_longer_than_1400", 1);
+                    continue;
+                }
+                let horizon = (busy + 3 * r + 2 * maxsep + 10).clamp(40, 2000);
                 let cap = jmax + T0_MARGIN + horizon + 2 * r + 400;
                 // critical-instant family
                 let mut pats: Vec<(Pattern, usize)> = vec![];
@@ -134,10 +146,19 @@ impl Monitor for C18 {
                     rep.count("bound_exceeded (reported by C01/C03)", 1);
                 } else {
                     let (plan, res) = last.unwrap();
+                    // for triage: which offset attains the maximum according to the naive evaluator
+                    let tb = crate::oracle::uni_eq::Tables::new(&p, crate::oracle::uni_eq::table_size(&p, 600));
+                    let ev = crate::oracle::uni_eq::evaluate(&p, &tb, 600);
+                    let truncated = plan.comp_releases.iter().flatten().any(|c| c.len() >= 2990);
+                    if truncated {
+                        rep.count("skipped_dense_sequence_truncated_by_harness_cap", 1);
+                        continue;
+                    }
                     rep.violation(
                         format!("C18 analysis={} kind=bound-not-attained", name),
                         jobj! {"analysis" => &name, "tasks" => sys.to_json(), "task_under_analysis" => i, "bound" => r,
                         "largest_response_time_found" => best, "schedules_tried" => pats.len(),
+                        "naive_evaluation" => ev.outcome.to_json(), "busy_window" => ev.l, "offset_attaining_maximum" => ev.argmax,
                         "last_critical_instant_plan" => plan_to_json(&plan),
                         "last_critical_instant_schedule_rle" => schedule_to_json(&res.schedule)},
                     );
